@@ -108,6 +108,18 @@ fn gen_delta(rng: &mut Rng, small_only: bool) -> Delta {
 fn mutate(rng: &mut Rng, old: &[u8], bs: usize, alphabet: u64) -> (Vec<u8>, &'static str) {
     let mut new = old.to_vec();
     let n = new.len();
+    // same-length rearrangements of whole blocks: the delta consists of Copy ops only, in an order / multiplicity that
+    // differs from old's (seeded change C04b: a helper fast path keyed on "no literal bytes and equal length")
+    if n >= 2 * bs && rng.chance(1, 4) {
+        let nb = n / bs;
+        let a = rng.below(nb as u64) as usize; let mut b = rng.below(nb as u64) as usize; if a == b { b = (a + 1) % nb; }
+        return match rng.below(4) {
+            0 => { for i in 0..bs { new.swap(a * bs + i, b * bs + i); } (new, "swap-blocks") }
+            1 => { for i in 0..bs { new[b * bs + i] = old[a * bs + i]; } (new, "repeat-block") }
+            2 => { new[..nb * bs].rotate_left(bs); (new, "rotate-blocks") }
+            _ => { let mut r = Vec::with_capacity(n); for k in (0..nb).rev() { r.extend_from_slice(&old[k * bs..(k + 1) * bs]); } r.extend_from_slice(&old[nb * bs..]); (r, "reverse-blocks") }
+        };
+    }
     match rng.below(9) {
         0 => (new, "equal"),
         1 => { let k = rng.range(1, 2 * bs as u64 + 1) as usize; let ins = rng.bytes(k, alphabet); let p = rng.below(n as u64 + 1) as usize; new.splice(p..p, ins); (new, "insert") }
@@ -203,7 +215,7 @@ pub fn run(tier: &str, seed: u64, driver_path: &str, work: &Path) -> Report {
     for i in 0..n3 {
         let bs = *rng.pick(&[1usize, 2, 3, 7, 8, 16, 64, 512, 700]);
         let alphabet = *rng.pick(&[2u64, 4, 16, 256, 256]);
-        let len = match rng.below(7) { 0 => 0, 1 => rng.range(0, 2), 2 => bs as u64, 3 => bs as u64 * 3 + 1, 4 => rng.range(0, 60), 5 => rng.range(60, 600), _ => rng.range(0, 3000) } as usize;
+        let len = match rng.below(8) { 0 => 0, 1 => rng.range(0, 2), 2 => bs as u64, 3 => bs as u64 * 3 + 1, 4 => rng.range(0, 60), 5 => rng.range(60, 600), 6 => bs as u64 * rng.range(2, 7), _ => rng.range(0, 3000) } as usize;
         let old = rng.bytes(len, alphabet);
         let (new, kind) = mutate(&mut rng, &old, bs, alphabet);
         std::fs::write(&oldp, &old).unwrap();
